@@ -116,7 +116,10 @@ class FacetIndex(KeywordIndex):
 
         for docid in docids:
             available_facets = self._rev_index.get(docid)
-            ck = cachekey(available_facets)
+            if available_facets is None:
+                # docid is unknown to the index or has no facets
+                continue
+            ck = tuple(available_facets)
             appropriate_facets = isect_cache.get(ck)
             if appropriate_facets is None:
                 appropriate_facets = self.family.OO.intersection(
